@@ -99,8 +99,16 @@ def run(case, ctx, rng):
                 # and the nonce object can be reused for the next message
                 from vmon.core import mutable_arg
                 o = new(); vsnap = (v.ival, v.size)
-                mutable_arg(ctx, 'enc==M^KS', (lambda buf: o.enc(v, buf)), M, want, one_object=True, **det)
+                mutable_arg(ctx, 'enc==M^KS', (lambda buf: o.enc(v, buf)), M, want, must_accept=False, one_object=True, **det)      # (Poly takes bytes only)
                 ctx.eq('enc==M^KS', (v.ival, v.size), vsnap, arg='the caller\'s nonce object is left unchanged', **det)
+                # one nonce object stepped in place by the caller between messages (a message counter kept in a Bits)
+                vv = Bits(nonce, bitorder=1); o = new()
+                first = call(lambda: o.enc(vv, M))
+                n2 = bytes(rng.randbytes(8)) if n % 2 else (int.from_bytes(nonce, 'little') + 1 & (1 << 64) - 1).to_bytes(8, 'little')
+                vv.ival = Bits(n2, bitorder=1).ival
+                KS2 = rs.stream(blockf, key, n2, n, rounds, start)
+                ctx.eq('enc==M^KS', first, want, nonce_object='before it is stepped', **det)
+                ctx.eq('enc==M^KS', call(lambda: o.enc(vv, M)), bytes(a ^ b for a, b in zip(M, KS2)), nonce_object='stepped in place by the caller', nonce2=n2, **det)
         else:
             import crysp.salsa20 as S20
             if not getattr(S20, '_verif_on', False):
@@ -163,6 +171,16 @@ def run(case, ctx, rng):
         got = call(run_)
         ctx.eq('rc4:pieces==stream', got, want, key=key, M=M, cuts=cuts)
         ctx.eq('rc4:pieces==oneshot', got, call(lambda: RC4(key).enc(M)), key=key, cuts=cuts)
+        # decryption is the same continuous stream: the ciphertext decrypted in pieces, and enc / dec mixed on one object
+        def run_dec(mixed):
+            o = RC4(key)
+            out = []
+            for i in range(len(pts) - 1):
+                f = o.enc if (mixed and i % 2) else o.dec
+                out.append(f(want[pts[i]:pts[i + 1]]))
+            return b''.join(out)
+        ctx.eq('rc4:pieces==stream', call(run_dec, False), M, key=key, cuts=cuts, direction='dec in pieces')
+        ctx.eq('rc4:pieces==stream', call(run_dec, True), M, key=key, cuts=cuts, direction='dec and enc alternating on one object')
     elif k == 'siblings':
         from vmon.core import siblings
         from crysp.rc4 import RC4
